@@ -44,6 +44,15 @@ def install_demo(src, wt):
             parent = [x for x in re.findall(r'(src/[\w/]+\.rs)', head)
                       if os.path.exists(os.path.join(wt, x)) and not x.endswith("/" + m + ".rs")]
             child = re.search(r"[Cc]hild module of `?((?:crate::)?[a-z_0-9]+(?:::[a-z_0-9]+)+)`?", head)
+            if not child:
+                cf = re.search(r"[Cc]hild module of `?src/([a-z_0-9/]+)\.rs`?", head)
+                if cf:
+                    class _M:
+                        def __init__(self, g):
+                            self.g = g
+                        def group(self, i):
+                            return self.g
+                    child = _M(cf.group(1).replace("/", "::"))
             if not (mount and parent) and child:
                 # "child module of socket::v3": src/socket/v3/<demo>.rs plus `mod <demo>;` at the end of src/socket/v3.rs
                 mp = child.group(1).replace("crate::", "").split("::")
